@@ -207,10 +207,20 @@ type c12ErrCase struct {
 }
 
 func checkC12Err(c c12ErrCase) *evid.Fail {
-	if len(c.Toks) == 0 || hasJunk(c.Toks) {
+	if len(c.Toks) == 0 {
 		return nil
 	}
 	tree, failAt := refParse(c.Toks)
+	if hasJunk(c.Toks) {
+		// a character outside the language is reported by the lexical pass, which runs first and in input order:
+		// the offending token is the first such character
+		for i, t := range c.Toks {
+			if hasJunk([]etok{t}) {
+				tree, failAt = nil, i
+				break
+			}
+		}
+	}
 	if tree != nil || failAt >= len(c.Toks) {
 		return nil
 	}
